@@ -450,13 +450,59 @@ def rule_v4(ctx):
                     if any(r[0] == "call" and r[1] in (db, db + 1) or (r[0] == "call" and mir.last_seg(r[2] or "") == "unwrap") for (r, p) in body.trace_operand(t["args"][0])) and \
                             any("fields" in p for (r, p) in body.trace_operand(t["args"][0])):
                         over_def = True
-                if t and t["k"] == "call" and mir.last_seg(mir.callee(t) or "") == "get" and b != db:
+                if t and t["k"] == "call" and mir.last_seg(mir.callee(t) or "") in ("get", "remove") and b != db:
                     if any("fields" in p and p[-1:] == ("0",) for (r, p) in body.trace_operand(t["args"][1])):
                         by_name = True
         if own_def and lp and over_def and by_name and not _skips(body, lp, {eb}) and _returns(body, region, et["args"][0]):
             res.ok({"construct": "StructLiteral", "verdict": "fields appended in the order of the definition named by the literal, looked up by name"})
         else:
             res.bad(Finding("V4", fid, "StructLiteral: field order / completeness", "own definition: %s; loop over the definition's fields: %s; value looked up by field name: %s" % (own_def, over_def, by_name), et["sp"]))
+    # ... and the field values are evaluated in the order in which the literal lists them (they may assign to variables): the
+    # lowering of the values is driven by the literal's own field list, not by the definition's
+    def from_literal_list(op):
+        return any(r == SELF1 and "as StructLiteral" in p and "1" in p[p.index("as StructLiteral"):] for (r, p) in body.deep_sources(op, 6))
+    drivers = []
+    for b in sorted(region):
+        t = body.term(b)
+        if body.blocks[b]["cleanup"]:
+            continue
+        if t["k"] == "call" and mir.callee(t) == fid:
+            for lp2 in [l for l in body.loops() if b in l["body"]]:
+                for x in lp2["body"]:
+                    tx = body.term(x)
+                    if tx and tx["k"] == "call" and mir.last_seg(mir.callee(tx) or "") == "next":
+                        drivers.append((t["sp"], from_literal_list(tx["args"][0])))
+        for st in body.blocks[b]["stmts"]:
+            cid = st["rv"].get("closure") if st["k"] == "assign" and st["rv"]["k"] == "aggregate" else None
+            if cid and ctx.has_fn(cid) and any(mir.callee(ct) == fid for _, ct in ctx.body(cid).calls()):
+                site = ctx.closure_item_sources(cid)
+                drivers.append((st["sp"], bool(site) and any(from_literal_list(o) for o in site[1].values())))
+    if not drivers:
+        res.bad(Finding("V4", fid, "StructLiteral: cannot see what drives the evaluation of the field values", "expected the field values to be lowered in a loop / adaptor over the literal's own field list", f["sp"]))
+    elif all(ok for _, ok in drivers):
+        res.ok({"construct": "StructLiteral", "verdict": "field values are lowered in the order of the literal's own field list"})
+    else:
+        res.bad(Finding("V4", fid, "StructLiteral: field values are evaluated in another order than they are written",
+                        "the lowering of the field values is driven by something else than the literal's field list (the struct definition: alphabetical order): "
+                        "`S { b: { x = x + 1u8; x }, a: { x = x * 2u8; x } }` evaluates `a` first", [sp for sp, ok in drivers if not ok][0]))
+    # (the parser must hand the fields over in the order in which they were written: no unconditional sort of a struct literal's fields)
+    n_lit = 0
+    for pf in ctx.fns.values():
+        if not pf.get("mir") or pf["sp"][0] != "src/parse.rs":
+            continue
+        pb = ctx.body(pf["id"])
+        aggs = [(b, st) for b, blk in enumerate(pb.blocks) if not blk["cleanup"] for st in blk["stmts"]
+                if st["k"] == "assign" and st["rv"]["k"] == "aggregate" and st["rv"].get("adt") == "ast::ExprEnum" and st["rv"].get("variant") == "StructLiteral"]
+        for (ab, ast_) in aggs:
+            n_lit += 1
+            fl = {r for (r, p) in pb.trace_operand(ast_["rv"]["ops"][1], through={})}
+            for sb, stt in pb.calls():
+                if mir.last_seg(mir.callee(stt) or "") in ("sort_by", "sort", "sort_unstable_by", "sort_by_key", "sort_unstable", "sort_by_cached_key") and stt["args"] and \
+                        ({r for (r, p) in pb.trace_operand(stt["args"][0])} & fl or {r for (r, p) in pb.deep_sources(stt["args"][0], 3)} & fl) and pb.dominates(sb, ab):
+                    res.bad(Finding("V4", pf["id"], "the parser sorts the fields of every struct literal",
+                                    "the field list of a struct literal expression is sorted before it is handed on, so the order in which the field values were written (and must be evaluated) is lost", stt["sp"]))
+    if n_lit and not any(x.site.startswith("the parser sorts") for x in res.findings):
+        res.ok({"construct": "StructLiteral", "verdict": "the parser keeps the written order of the fields of struct literal expressions (%d construction site(s))" % n_lit})
     # repeat literals
     for kind in ("ArrayRepeatLiteral", "ArrayRepeatLiteralConst"):
         succ, region = _region(body, {INNER: kind})
